@@ -108,7 +108,7 @@ def run_case(case):
         if isinstance(m, env.IncompatibleArgsError):
             viol = {"what": "merge raised IncompatibleArgsError although the union interface is well formed: %s" % m,
                     "sig": {"kind": "well-formed-merge-rejected"}, "detail": {}}
-        elif exact.feasible([tight]):
+        elif exact.feasible([tight], None, exact.BOX):
             viol = {"what": "merge raised %s although A1&A2&G1&G2 is satisfiable" % type(m).__name__,
                     "sig": {"kind": "merge-raised-on-feasible"}, "detail": {"message": str(m)[:200]}}
         return {"viol": viol, "nontrivial": False, "labels": labels, "outcome": "refused"}
